@@ -52,8 +52,13 @@ class UnitarySerializedEmulator(IndependentSubcircuitsBackend):
 
         # vec = U * inp
         # We don't need to initialize inp yet
-        inp = numpy.empty(hilb_dim, dtype=complex)
-        vec = numpy.zeros(hilb_dim, dtype=complex)
+        try:
+            inp = numpy.empty(hilb_dim, dtype=complex)
+            vec = numpy.zeros(hilb_dim, dtype=complex)
+        except (ValueError, MemoryError, OverflowError) as exc:
+            raise JaqalError(
+                f"Cannot emulate {n_qubits} qubits: the state vector does not fit in memory"
+            ) from exc
         vec[0] = 1
 
         # We serialize the subcircuit, obtaining a list of gates.
